@@ -213,6 +213,11 @@ class Dm1:
             self._notify_subscribers(sa, timestamp)
 
     def _send(self, cookie):
+        if self._ca.state != j1939.ControllerApplication.State.NORMAL:
+            # no address (claim not finished yet, or lost): send_pgn would raise - inside the job thread,
+            # which would end it for the whole ECU. Skip this cycle; the timer stays active.
+            return True
+
         # get dm1 data
         self._lamp_status, self._dtc_dic_list = cookie['cb']()
 
